@@ -575,6 +575,8 @@ theorem modelOut_never_panic (s : Scn) : ∀ _ : modelOut s = Out.panic, False :
   · split at h
     · cases h
     · exact treeOut_never_panic _ h
+  · dsimp only at h
+    split at h <;> cases h
   all_goals cases h
 
 open Pko.Drv.C19 in
